@@ -76,6 +76,16 @@ fn main() {
             });
             run_check(chk, thorough, seed, ext)
         }
+        "item" => {
+            // pwcheck <ID> item <quick|thorough> <phase> <item index> <crumb file>   (crash localisation, driven by bin/check)
+            let thorough = args.get(3).map(|s| s == "thorough").unwrap_or(false);
+            let Some(chk) = build(id, thorough, seed) else { machinery(&format!("unknown property {id}")) };
+            let phase = args.get(4).cloned().unwrap_or_default();
+            let item: usize = args.get(5).and_then(|s| s.parse().ok()).unwrap_or_else(|| machinery("item index"));
+            let crumb = args.get(6).cloned().unwrap_or_else(|| machinery("crumb file"));
+            let Some(ph) = chk.phases.iter().find(|p| p.name == phase) else { machinery("unknown phase") };
+            run_item(ph, thorough, seed, item, &crumb)
+        }
         "replay" => {
             let file = args.get(3).unwrap_or_else(|| machinery("replay needs a file"));
             let s = std::fs::read_to_string(file).unwrap_or_else(|e| machinery(&format!("replay file: {e}")));
